@@ -265,7 +265,7 @@ pub fn run(ctx: &Ctx) -> i32 {
         property: "C10",
         tier,
         seed: ctx.seed,
-        scenarios: tier.pick(1_200, 40_000),
+        scenarios: tier.pick(8_000, 200_000),
         threads: super::threads(),
         watchdog: Duration::from_secs(120),
         budget: Duration::from_secs(tier.pick(90, 900)),
